@@ -124,49 +124,69 @@ def item_chars(item):
     raise ValueError(item)
 
 
-def expect_item(font, item):
-    """-> (glyphs [(cp, role)], syl) where syl = number of trailing glyphs forming the most recent
-    recognized syllable (0: none) — the base a following tone mark is moved in front of."""
+KNOWN_CLASS = "lv_t_unsupported_lv"
+
+
+def in_known_class(font, item):
+    """<LV,T> where the font maps neither LV nor LV+T but maps L and V: the code decomposes LV but leaves T
+    out of the syllable (`if has_glyph && tindex == 0` guards the inclusion of T)."""
+    if item[0] != "ST":
+        return False
+    lv, t = item[1], item[2]
+    si = lv - SB
+    l, v = LB + si // NC, VB + (si % NC) // TC
+    if comb_t(t) and font.has(lv + (t - TB)):
+        return False
+    return (not font.has(lv)) and font.has(l) and font.has(v)
+
+
+def expect_item(font, item, as_implemented=False):
+    """-> (glyphs [(cp, role)], syl, split) where syl = number of trailing glyphs forming the most recent
+    recognized syllable (0: none) — the base a following tone mark is moved in front of — and split = number
+    of leading glyphs that stay in the first character's cluster when the item is NOT one syllable (None: the
+    item is one cluster).  as_implemented=True gives, for the known class only, what the code does."""
     k = item[0]
     if k == "X":
-        return [g(font, item[1])], 0
+        return [g(font, item[1])], 0, None
     if k == "S":
         s = item[1]
         si = s - SB
         l, v, t = LB + si // NC, VB + (si % NC) // TC, TB + si % TC
         if font.has(s):
-            return [(s, 0)], 1
+            return [(s, 0)], 1, None
         if si % TC == 0:
             if font.has(l) and font.has(v):
-                return [(l, 1), (v, 2)], 2
-            return [(0, 0)], 0
+                return [(l, 1), (v, 2)], 2, None
+            return [(0, 0)], 0, None
         if font.has(l) and font.has(v) and font.has(t):
-            return [(l, 1), (v, 2), (t, 3)], 3
+            return [(l, 1), (v, 2), (t, 3)], 3, None
         # not the Hangul shaper any more: the normalizer's generic fallback splits LVT into LV + T
         if font.has(s - si % TC) and font.has(t):
-            return [(s - si % TC, 0), (t, 0)], 0
-        return [(0, 0)], 0
+            return [(s - si % TC, 0), (t, 0)], 0, None
+        return [(0, 0)], 0, None
     if k == "J":
         l, v, t = item[1], item[2], item[3]
         if comb_l(l) and comb_v(v) and (not t or comb_t(t)):
             s = SB + ((l - LB) * VC + (v - VB)) * TC + ((t - TB) if t else 0)
             if font.has(s):
-                return [(s, 0)], 1
+                return [(s, 0)], 1, None
         out = [g(font, l, 1), g(font, v, 2)] + ([g(font, t, 3)] if t else [])
-        return out, len(out)
+        return out, len(out), None
     if k == "ST":
         lv, t = item[1], item[2]
         si = lv - SB
         l, v = LB + si // NC, VB + (si % NC) // TC
         if comb_t(t) and font.has(lv + (t - TB)):
-            return [(lv + (t - TB), 0)], 1
+            return [(lv + (t - TB), 0)], 1, None
         if font.has(l) and font.has(v):
-            return [(l, 1), (v, 2), g(font, t, 3)], 3
-        return [g(font, lv), g(font, t)], 0
+            if as_implemented and not font.has(lv):
+                return [(l, 1), (v, 2), g(font, t, 0)], 0, 2
+            return [(l, 1), (v, 2), g(font, t, 3)], 3, None
+        return [g(font, lv), g(font, t)], 0, 1
     raise ValueError(item)
 
 
-def expect_text(font, items, level, nd, clusters):
+def expect_text(font, items, level, nd, clusters, as_implemented=False):
     """items: list of (item, tone or 0); clusters: per input character (strictly increasing).
     Returns the expected API result as a list of (cp, role, cluster or None); None = no claim.
     Clusters are claimed at level 0 only (the property's level): every syllable, together with a tone
@@ -179,7 +199,7 @@ def expect_text(font, items, level, nd, clusters):
         chars = item_chars(item)
         n = len(chars) + (1 if tone else 0)
         cls = clusters[pos:pos + n]
-        glyphs, syl = expect_item(font, item)
+        glyphs, syl, split = expect_item(font, item, as_implemented)
         ng = len(glyphs)
         if tone:
             tg = g(font, tone)
@@ -193,8 +213,8 @@ def expect_text(font, items, level, nd, clusters):
                 glyphs = glyphs + [tg]
         if level != 0:
             out += [(a, b, None) for a, b in glyphs]
-        elif item[0] == "ST" and syl == 0:
-            out += [(glyphs[0][0], glyphs[0][1], cls[0])] + [(a, b, cls[1]) for a, b in glyphs[1:]]
+        elif split is not None:
+            out += [(a, b, cls[0]) for a, b in glyphs[:split]] + [(a, b, cls[1]) for a, b in glyphs[split:]]
         else:
             out += [(a, b, min(cls)) for a, b in glyphs]
         pos += n
@@ -491,7 +511,7 @@ def pure_hooks(chk, binp, thorough):
     dis = []
     rc, out, err = C.run_rbv(binp, ["c12", "preds"])
     if rc != 0:
-        return [{"what": "rbv c12 preds failed", "stderr": err[-300:]}]
+        return [{"what": "rbv c12 preds failed", "stderr": err[-300:]}], []
     preds = []
     jmo = None
     for line in out.splitlines():
@@ -581,8 +601,18 @@ def pure_hooks(chk, binp, thorough):
 
 # ------------------------------------------------------------------ the property on the public API
 
+def matches(exp, got):
+    return len(got) == len(exp) and all((ecp, erole) == (cp, role) and (ecl is None or ecl == k)
+                                        for (ecp, erole, ecl), (cp, role, k, _u) in zip(exp, got))
+
+
+def fmt_exp(exp):
+    return [("U+%04X" % a if a else "notdef", ["", "ljmo", "vjmo", "tjmo"][b], k) for a, b, k in exp]
+
+
 def api_predicate(chk, plan_):
-    fails = []
+    """-> (failures outside any known class, hits inside the known class)"""
+    fails, known = [], []
     n = 0
     nontrivial = 0
     for f, cases in plan_:
@@ -593,29 +623,38 @@ def api_predicate(chk, plan_):
             cl = [k for _, k in c["text"]]
             exp = expect_text(f, c["items"], c["level"], c["nd"], cl)
             got = c["api"]
-            if got is None:
-                fails.append({"what": "shape-panicked", "font": f.describe(), "font_request": f.req(), "request": req_line(c),
-                              "api": c.get("api_raw")})
-                continue
-            ok = len(got) == len(exp)
-            if ok:
-                for (ecp, erole, ecl), (cp, role, k, _u) in zip(exp, got):
-                    if (ecp, erole) != (cp, role) or (ecl is not None and ecl != k):
-                        ok = False
             if any(r for _, r, _ in exp) or len(exp) != len(c["text"]):
                 nontrivial += 1
-            if not ok:
-                fails.append({"what": "hangul-rendering-differs-from-property", "font": f.describe(), "font_request": f.req(),
-                              "request": req_line(c), "cluster_level": c["level"],
-                              "text": ["U+%04X" % cp for cp, _ in c["text"]], "clusters": cl,
-                              "expected(cp,role,cluster)": [("U+%04X" % a if a else "notdef", ["", "ljmo", "vjmo", "tjmo"][b], k) for a, b, k in exp],
-                              "got(cp,role,cluster,unsafe)": [("U+%04X" % a if a else "notdef", ["", "ljmo", "vjmo", "tjmo"][b] if b < 4 else b, k, u)
-                                                              for a, b, k, u in got], "tag": c["tag"]})
+            if got is not None and matches(exp, got):
+                continue
+            rec = {"what": "hangul-rendering-differs-from-property", "font": f.describe(), "font_request": f.req(),
+                   "request": req_line(c), "cluster_level": c["level"],
+                   "text": ["U+%04X" % cp for cp, _ in c["text"]], "clusters": cl,
+                   "expected(cp,role,cluster)": fmt_exp(exp), "tag": c["tag"]}
+            if got is None:
+                rec["what"] = "shape-panicked"
+                rec["api"] = c.get("api_raw")
+                fails.append(rec)
+                continue
+            rec["got(cp,role,cluster,unsafe)"] = [("U+%04X" % a if a else "notdef", ["", "ljmo", "vjmo", "tjmo"][b] if b < 4 else b, k, u)
+                                                  for a, b, k, u in got]
+            if any(in_known_class(f, it) for it, _ in c["items"]) and \
+                    matches(expect_text(f, c["items"], c["level"], c["nd"], cl, as_implemented=True), got):
+                rec["what"] = "lv-t-with-unsupported-lv-leaves-t-untagged"
+                rec["class"] = KNOWN_CLASS
+                known.append(rec)
+            else:
+                fails.append(rec)
     chk.add_eval(n, nontrivial)
-    return fails
+    return fails, known
 
 
 # ------------------------------------------------------------------ driver
+
+KNOWN_TEXT = ("<LV,T> with LV not mapped by the font (jamo mapped, LV+T not mapped or T an old trailing jamo): LV is decomposed "
+              "to L V tagged ljmo vjmo but T stays outside the syllable: no tjmo, its own cluster at level 0 "
+              "(`if has_glyph && tindex == 0` in the decomposition branch; HarfBuzz has the same test)")
+
 
 def run(chk):
     thorough = chk.tier == "thorough"
@@ -630,39 +669,51 @@ def run(chk):
     pr = chk.prove(extra_targets=["Corr/HangulC.vo"])
     broken = []
     if chk.guards_failed:
-        broken += ["translator-guard:%s (%s)" % g for g in chk.guards_failed if g[0].split(":")[0] in ("hangul", "unicode", "buffer", "tr_hangul")]
+        broken += ["translator-guard:%s (%s)" % g for g in chk.guards_failed
+                   if g[0].split(":")[0] in ("hangul", "unicode", "buffer", "tr_hangul")]
     if not pr["ok"]:
         broken += ["proof:" + f for f in pr["failed"]]
     ok, binp, blog = C.cargo_build("release", hooks=True)
-    dis, fails = [], []
+    dis, fails, known = [], [], []
     if not ok:
         broken.append("hook-build-failed: " + blog[-600:])
     else:
-        d, fa = pure_hooks(chk, binp, thorough)
-        dis += d
-        fails += fa
-        pl = plan(chk, thorough)
-        dis += run_impl(binp, pl)
-        corr_ok = "Corr/HangulC" not in (pr.get("error_at") or "") and os.path.exists(os.path.join(C.COQ, "Corr", "HangulC.vo"))
+        corr_ok = os.path.exists(os.path.join(C.COQ, "Corr", "HangulC.vo"))
         if corr_ok:
-            dis += model_vs_hook(chk, pl)
+            d, fa = pure_hooks(chk, binp, thorough)
+            dis += d
+            fails += fa
         else:
             broken.append("model-not-built: correspondence skipped")
-        fails += api_predicate(chk, pl)
+        pl = plan(chk, thorough)
+        dis += run_impl(binp, pl)
+        if corr_ok:
+            dis += model_vs_hook(chk, pl)
+        fa, known = api_predicate(chk, pl)
+        fails += fa
         chk.note("fonts", [f.describe() for f, _ in pl])
         chk.note("cases_per_font", [len(c) for _, c in pl])
         for f, cases in pl[:2]:
             for c in cases[:2] + cases[-1:]:
                 chk.sample({"font": f.req(), "request": req_line(c), "hook": c.get("hook_raw"), "api": c.get("api_raw")})
     chk.note("correspondence_disagreements", len(dis))
+    chk.note("api_failures", len(fails))
+    chk.note("known_class_hits", len(known))
+    # ---- verdict
+    if known:
+        if chk.is_known(KNOWN_CLASS):
+            chk.known_finding(KNOWN_CLASS, "%d texts, e.g. %s with %s: %s" % (
+                len(known), known[0]["request"], known[0]["font_request"], KNOWN_TEXT))
+        else:
+            chk.violation(known[0]["what"], dict(known[0], note=KNOWN_TEXT, cases_in_class=len(known)))
     for f in fails[:5]:
         chk.violation(f["what"], f)
-    chk.note("api_failures", len(fails))
     if not fails and (broken or dis):
         chk.violation("tie-or-proof-broken", {
             "broken": broken, "disagreements": dis[:10],
             "note": "theorems of Props/C12.v, a translator guard or the model/implementation correspondence no longer check; the "
-                    "implementation-level search (public API against the property's arithmetic) found no failing input"}, no_input=True)
+                    "implementation-level search (public API against the property's arithmetic) found no failing input outside the known class"},
+            no_input=True)
     chk.cov["trusted_base"] = C.DEFAULT_TRUSTED_BASE + [
         "hooks: src/hb/verif/hangul.rs, verif_* wrappers in ot_shaper_hangul.rs and unicode.rs",
         "generated fonts: harness/src/c12.rs sfnt writer (self-checked against the face's cmap per variant)",
@@ -676,13 +727,25 @@ def replay(chk, path):
     if not ok:
         print("hook build failed")
         return 1
+    still = 0
     if "request" in body and "font_request" in body:
         rc, out, err = C.run_rbv(binp, ["c12", "run"], stdin=body["font_request"] + "\n" + body["request"] + "\n")
         print(out)
-    print("re-running the quick search")
+        lines = [x for x in out.splitlines() if x.startswith("r ")]
+        if lines and "expected(cp,role,cluster)" in body:
+            got = parse_api(lines[0][2:].split(" | ")[1].strip())
+            exp = [(0 if a == "notdef" else int(a[2:], 16), ["", "ljmo", "vjmo", "tjmo"].index(b), k)
+                   for a, b, k in body["expected(cp,role,cluster)"]]
+            if got is None or not matches(exp, got):
+                print("STILL FAILING: rendering differs from the property's expectation")
+                still = 1
+            else:
+                print("now as expected")
+        return still
+    print("no concrete input in this replay; re-running the quick search")
     pl = plan(chk, False)
     run_impl(binp, pl)
-    fails = api_predicate(chk, pl)
+    fails, known = api_predicate(chk, pl)
     for f in fails[:5]:
         print("STILL FAILING:", f)
     return 1 if fails else 0
